@@ -231,10 +231,51 @@ def r05d(ctx, run):
     bi = top_stmt_index(lam.body, lambda n: n.get("k") == "mcall" and n["m"] == "body" and canon(n["r"]) == "lambda")
     run.check(ci is not None and bi is not None and ci < bi, lam.site(stmts[ci]["ln"] if ci is not None else lam.ln), "inline header params cleared before the body is lowered",
               "Ctx::lower_lambda", "inline-clear", lam.file, lam.ln, "inline header params must be cleared before the lambda body is lowered")
-    # params replaced by the lambda's own param keys
-    rep = [s for s in stmts if s["k"] == "local" and s.get("init") and "mem::replace(&mut self.params, param_keys)" in canon(s["init"])]
-    run.check(len(rep) == 1, lam.site(), "lambda body sees exactly its own parameters", "Ctx::lower_lambda", "own-params", lam.file, lam.ln,
-              "self.params must be replaced by the lambda's own parameter table")
+    # typestate over the statements of lower_lambda: what self.params / self.scopes hold when the header and the body are lowered.
+    # header (parameter types, return type: lowered before inline_header_params is cleared) -> the ENCLOSING lambda's params and block
+    # scopes must still be in place (a nested function's header may name them); body -> exactly the lambda's own parameter table and no scopes
+    import paths
+    own_tables = set()
+    for n in walk(lam.body):
+        if n.get("k") == "mcall" and n["m"] == "insert" and canon(n["r"]) != "self.inline_header_params" and len(n["a"]) == 2 and canon(n["a"][1]) == "info":
+            own_tables.add(canon(n["r"]))
+    problems = []
+
+    def step(node, st):
+        params, scopes, phase = st
+        k = node.get("k")
+        if k == "call" and canon(node["f"]) in ("mem::take", "std::mem::take", "core::mem::take") and node["a"]:
+            tgt = canon(node["a"][0])
+            if tgt == "&mut self.params":
+                params = "empty"
+            if tgt == "&mut self.scopes":
+                scopes = "empty"
+        if k == "call" and canon(node["f"]) in ("mem::replace", "std::mem::replace", "core::mem::replace") and len(node["a"]) == 2:
+            tgt, val = canon(node["a"][0]), canon(node["a"][1])
+            if tgt == "&mut self.params":
+                params = "own" if val in own_tables else "other:" + val
+            if tgt == "&mut self.scopes":
+                scopes = "other:" + val
+        if k == "assign" and canon(node["l"]) == "self.params":
+            params = "own" if canon(node["r"]) in own_tables else ("outer" if canon(node["r"]).startswith("old_") else "other:" + canon(node["r"]))
+        if k == "assign" and canon(node["l"]) == "self.scopes":
+            scopes = "outer" if canon(node["r"]).startswith("old_") else "other:" + canon(node["r"])
+        if k == "mcall" and node["m"] == "clear" and canon(node["r"]) == "self.inline_header_params":
+            phase = "body"
+        if k == "mcall" and canon(node["r"]) == "self" and node["m"] in ("lower_expr", "lower_block", "lower_stmt"):
+            if phase == "header" and (params != "outer" or scopes != "outer"):
+                problems.append((node["ln"], "the lambda header is lowered at line %d while self.params is %s and self.scopes is %s: names of the enclosing lambda "
+                                 "(its parameters, its block locals) are not visible in a nested function's parameter and return types" % (node["ln"], params, scopes)))
+            if phase == "body" and (params != "own" or scopes != "empty"):
+                problems.append((node["ln"], "the lambda body is lowered at line %d while self.params is %s and self.scopes is %s: the body must see exactly its own "
+                                 "parameters and none of the enclosing block scopes" % (node["ln"], params, scopes)))
+        return (params, scopes, phase)
+    paths.run(lam.body, ("outer", "outer", "header"), step)
+    if not own_tables:
+        problems.append((lam.ln, "no parameter table is filled in the header loop"))
+    seen_msgs = sorted(set(problems))
+    run.check(not seen_msgs, lam.site(), "header lowered under the enclosing lambda's params and scopes; body under exactly its own parameter table, no scopes", "Ctx::lower_lambda",
+              "own-params", lam.file, seen_msgs[0][0] if seen_msgs else lam.ln, "; ".join(m for _, m in seen_msgs[:3]))
     com = ctx.syn.fn("Ctx::lower_comptime", FILE)
     save_restore(com, run, ["params", "scopes"])
 
